@@ -30,7 +30,7 @@ Definition refcount (p : pool) (r : N) : N :=
 (* ====================================================================== *)
 Theorem get_live : forall prof p r s, live p r s -> r <= MAX_STRING_REF -> pool_get prof p r = Ok s.
 Proof.
-  intros prof p r s [Hr [rc [Hn _]]] Hmax. unfold pool_get.
+  intros prof p r s [Hr [rc [Hn _]]] Hmax. unfold pool_get. rewrite nth_opt_N_eq.
   assert (Hc : (0 <? r) && (r <=? MAX_STRING_REF) = true).
   { apply andb_true_intro; split; [apply N.ltb_lt | apply N.leb_le]; assumption. }
   rewrite Hc, Hn. destruct prof; reflexivity.
@@ -54,7 +54,7 @@ Qed.
 Lemma build_strings_no_panic : forall cp es data, build_strings cp es data <> Panic.
 Proof.
   intros cp es; induction es as [|[len rc] es IH]; intros data; cbn [build_strings]; [discriminate|].
-  destruct (take_bytes (N.to_nat len) data) as [[h t]|]; [|discriminate].
+  destruct (take_bytes_N len data) as [[h t]|]; [|discriminate].
   destruct (cp_decode cp h); [|discriminate].
   specialize (IH t). destruct (build_strings cp es t); cbn [rbind]; congruence.
 Qed.
@@ -136,7 +136,7 @@ Proof.
   destruct (rc =? 0) eqn:E0.
   - apply N.eqb_eq in E0; subst rc.
     assert (Ok (Some ((s, 1) :: l, idx)) = Ok (Some (l', i))) as H'.
-    { destruct prof; [destruct t|]; congruence. }
+    { destruct prof; [destruct t|]; try congruence; destruct POOL_INCREF_ASSERTS_EMPTY; congruence. }
     inversion H'; subst. exists O, t, 0. split; [lia|]. split; [|left; reflexivity].
     change 1 with (0 + 1). constructor.
   - apply N.eqb_neq in E0.
@@ -260,7 +260,7 @@ Theorem decref_spec : forall prof p r s,
     p_cp p' = p_cp p /\ p_long p' = p_long p.
 Proof.
   intros prof [cp l long m] r s Hwf [Hr [rc [Hn Hpos]]] Hmax.
-  unfold pool_wf, live, total_refs, refcount, pool_decref in *. cbn [p_strings p_cp p_long p_mod] in *.
+  unfold pool_wf, live, total_refs, refcount, pool_decref in *. rewrite ?decref_at_N_eq in *. cbn [p_strings p_cp p_long p_mod] in *.
   assert (Hc : (0 <? r) && (r <=? MAX_STRING_REF) = true).
   { apply andb_true_intro; split; [apply N.ltb_lt | apply N.leb_le]; assumption. }
   assert (Hz : (r =? 0) = false) by (apply N.eqb_neq; lia).
@@ -403,7 +403,7 @@ Proof.
   induction l as [|[s rc] l IH]; intros Hwf; [reflexivity|].
   inversion Hwf as [|? ? [W1 [W2 [W3 W4]]] Hwf']; subst. cbn [fst snd] in *.
   cbn [map flat_map enc_entry fst snd build_strings].
-  rewrite take_bytes_app, cp_decode_utf8, utf8_roundtrip by assumption.
+  rewrite take_bytes_N_eq, take_bytes_app, cp_decode_utf8, utf8_roundtrip by assumption.
   rewrite (IH Hwf'). reflexivity.
 Qed.
 
